@@ -109,7 +109,7 @@ package execution
 //@ func (*Executor).LoadDependencyOutputs(e, ctx, target, update) (err)
 //@   requires [in_worker] inWorker || soloPhase
 //@   requires [graph] absEdges(e.graph) && endpointsAreNodes(e.graph)
-//@   modifies heap("H$S$model.Target$OutputsLoaded"), heap("H$S$model.Target$OutputHash"), heap("H$S$model.Target$CacheTime"), heap("H$S$model.Target$ExecutionTime"), heap("H$S$output.handlers.DockerRegistryOutputHandler$dockerClient"), heap("H$S$output.handlers.dockerLayerProgress$lastCurrent"), heap("H$S$proto.gen.Directory$Directories"), heap("H$S$proto.gen.Directory$Files"), heap("H$S$proto.gen.Directory$Symlinks"), heap("M$String$Int$has"), heap("M$String$Int$val"), heap("M$String$Int$len")
+//@   modifies heap("H$S$model.Target$OutputsLoaded"), heap("H$S$model.Target$OutputHash"), heap("H$S$model.Target$CacheTime"), heap("H$S$model.Target$ExecutionTime"), heap("H$S$output.handlers.DockerRegistryOutputHandler$dockerClient"), heap("H$S$output.handlers.dockerLayerProgress$lastCurrent"), heap("H$S$proto.gen.Directory$Directories"), heap("H$S$proto.gen.Directory$Files"), heap("H$S$proto.gen.Directory$Symlinks"), heap("H$S$proto.gen.Tree$Children"), heap("H$S$proto.gen.Tree$Root"), heap("H$S$proto.gen.Tree$sizeCache"), heap("H$S$proto.gen.Tree$state"), heap("H$S$proto.gen.Tree$unknownFields"), heap("M$String$Int$has"), heap("M$String$Int$val"), heap("M$String$Int$len")
 //@   reveal inTargets
 //@   ensures [deps_loaded] err == nil ==> forall d model.BuildNode :: {edge(e.graph, d, tnode(target))} edge(e.graph, d, tnode(target)) && typeIs(d, "*model.Target") ==> asPtr(d, "*model.Target").OutputsLoaded
 //@   ensures [deps_behind_aliases_loaded] err == nil ==> forall a model.BuildNode, d model.BuildNode :: {edge(e.graph, a, tnode(target)), edge(e.graph, d, a)} edge(e.graph, a, tnode(target)) && !typeIs(a, "*model.Target") && edge(e.graph, d, a) && typeIs(d, "*model.Target") ==> asPtr(d, "*model.Target").OutputsLoaded
@@ -123,7 +123,7 @@ package execution
 //@   requires [in_worker] inWorker || soloPhase
 //@   requires [own_deps_present_before_rerun] (forall d model.BuildNode :: {edge(e.graph, d, tnode(localDep))} edge(e.graph, d, tnode(localDep)) && typeIs(d, "*model.Target") ==> asPtr(d, "*model.Target").OutputsLoaded) &&
 //@        (forall a model.BuildNode, d model.BuildNode :: {edge(e.graph, a, tnode(localDep)), edge(e.graph, d, a)} edge(e.graph, a, tnode(localDep)) && !typeIs(a, "*model.Target") && edge(e.graph, d, a) && typeIs(d, "*model.Target") ==> asPtr(d, "*model.Target").OutputsLoaded)
-//@   modifies heap("H$S$model.Target$OutputsLoaded"), heap("H$S$model.Target$OutputHash"), heap("H$S$model.Target$CacheTime"), heap("H$S$model.Target$ExecutionTime"), heap("H$S$output.handlers.DockerRegistryOutputHandler$dockerClient"), heap("H$S$output.handlers.dockerLayerProgress$lastCurrent"), heap("H$S$proto.gen.Directory$Directories"), heap("H$S$proto.gen.Directory$Files"), heap("H$S$proto.gen.Directory$Symlinks"), heap("M$String$Int$has"), heap("M$String$Int$val"), heap("M$String$Int$len")
+//@   modifies heap("H$S$model.Target$OutputsLoaded"), heap("H$S$model.Target$OutputHash"), heap("H$S$model.Target$CacheTime"), heap("H$S$model.Target$ExecutionTime"), heap("H$S$output.handlers.DockerRegistryOutputHandler$dockerClient"), heap("H$S$output.handlers.dockerLayerProgress$lastCurrent"), heap("H$S$proto.gen.Directory$Directories"), heap("H$S$proto.gen.Directory$Files"), heap("H$S$proto.gen.Directory$Symlinks"), heap("H$S$proto.gen.Tree$Children"), heap("H$S$proto.gen.Tree$Root"), heap("H$S$proto.gen.Tree$sizeCache"), heap("H$S$proto.gen.Tree$state"), heap("H$S$proto.gen.Tree$unknownFields"), heap("M$String$Int$has"), heap("M$String$Int$val"), heap("M$String$Int$len")
 //@   ensures [rerun_outputs_present] err == nil ==> localDep.OutputsLoaded
 //@   before_call executeTarget#1 [reruns_with_the_dependencys_own_tools] binTools == binToolsFor(e.graph, localDep) && outputIdentifiers == outputIdsFor(e.graph, localDep)
 //@   ensures [loaded_monotone] forall x *model.Target :: {x.OutputsLoaded} old(x.OutputsLoaded) ==> x.OutputsLoaded
